@@ -91,7 +91,7 @@ class C01(Prop):
         return obs
 
     def model_requests(self, case, obs):
-        if "trace" not in obs:
+        if "trace" not in obs or R.layout_family(case["text"]):
             return []
         b = R.block_requests(case, obs["trace"])
         return b + R.text_requests(case, obs["trace"]) if b else []
@@ -170,7 +170,8 @@ class C01(Prop):
         elif obs["out"] != case["text"]:
             acc["changed"] = acc.get("changed", 0) + 1
 
-    families = {}
+    families = {"lone_cr": R.fam_lone_cr, "backslash_line": R.fam_backslash_line,
+                "crlf_on_disk": lambda case, failure: case.get("entry") == "cli" and "\r\n" in case["text"]}
 
 
 PROP = C01()
